@@ -23,11 +23,14 @@
     that was not in the section - for every decision that depends only on the record under the cursor and never chooses the OPT
     record; such decisions exist (C11_delete_everything_but_opt).  The same from the object as the parser returned it, compressed
     or not ([objst]: C11_walk_on_any_object, C11_delete_on_any_object): the first deletion runs the decompress-and-translate
-    prologue, which lands on the same record of the pointer-free packet (Proofs/DecompressFirst.v).  What is still decided by the
-    correspondence only: the variant of next() that skips the OPT record, and the question section. *)
+    prologue, which lands on the same record of the pointer-free packet (Proofs/DecompressFirst.v).  The ordinary next(), which
+    steps over the OPT record, is covered too (Proofs/WalkSkipInv.v): it yields the next record that is not the OPT record
+    (C11_next_skips_opt), and the loop with it returns what the machine returns on the section's records other than OPT
+    (C11_walk_with_next_refines_machine, C11_walk_with_next_exact).  What is still decided by the correspondence only: the
+    question section. *)
 From Coq Require Import List Arith Bool.
 From DV Require Import Model.Base Model.Parser Model.Header Model.Readers Model.Mutate Spec.NameSpec Spec.PacketSpec Spec.RecordSpec Spec.PlainSpec
-  Proofs.Hoare Proofs.WalkSkip Proofs.PlainWf Proofs.InsertSpec Proofs.DeleteInv Proofs.Totality Proofs.WalkInv Proofs.DecompressFirst Proofs.WalkFresh Proofs.DeleteWalk.
+  Proofs.Hoare Proofs.WalkSkip Proofs.PlainWf Proofs.InsertSpec Proofs.DeleteInv Proofs.Totality Proofs.WalkInv Proofs.DecompressFirst Proofs.WalkFresh Proofs.WalkSkipInv Proofs.DeleteWalk.
 Import ListNotations.
 
 Theorem C11_walk_terminates : forall (A : Type) (D : A -> bool) (l : list A),
@@ -207,3 +210,60 @@ Print Assumptions C11_parsed_packets_are_such_objects.
 
 Example C11_objst_means : forall v, objst v <-> dinv v \/ (bytes_ok (pp_packet v) /\ parse (pp_packet v) = Ok v).
 Proof. intros v. unfold objst. tauto. Qed.
+
+(** the ordinary next(): [skip_first l] is the record it stops on when [l] is what lies ahead, and what follows that record *)
+Theorem C11_next_skips_opt : forall v it qls qt lA lN lR sec l1 l, objst v -> reading (pp_packet v) qls qt lA lN lR ->
+  sec = SAnswer \/ sec = SNameServers \/ sec = SAdditional -> sec_list sec lA lN lR = l1 ++ l ->
+  ((l1 = [] /\ it_offset it = None /\ it_section it = sec) \/ (exists l0 rxp, l1 = l0 ++ [rxp] /\ it = cur_on sec (fst rxp) (length l))) ->
+  r_next v it = Ok (match skip_first l with None => None | Some (rx, l') => Some (cur_on sec (fst rx) (length l')) end).
+Proof. exact r_next_from. Qed.
+Print Assumptions C11_next_skips_opt.
+
+Theorem C11_walk_with_next_refines_machine : forall sec, sec = SAnswer \/ sec = SNameServers \/ sec = SAdditional ->
+  forall (D : rec_view * rd_view -> bool) (dec : ppacket -> rrit -> bool),
+  (forall v qls qt lA lN lR rxp n, reading (pp_packet v) qls qt lA lN lR -> In rxp (sec_list sec lA lN lR) ->
+     dec v (cur_on sec (fst rxp) n) = D (unpl rxp)) ->
+  forall fuel v it qls qt lA lN lR i cs ys,
+    objst v -> reading (pp_packet v) qls qt lA lN lR -> Cur_s sec it (sec_list sec lA lN lR) i -> Forall2 (yielded sec) cs ys ->
+    match awalk D fuel (filter nonoptp (map unpl (sec_list sec lA lN lR))) i ys with
+    | None => cwalk_s dec fuel v it cs = None
+    | Some (l', ys') =>
+      exists v' cs' lA' lN' lR', cwalk_s dec fuel v it cs = Some (v', cs') /\ objst v' /\ reading (pp_packet v') qls qt lA' lN' lR' /\
+        filter nonoptp (map unpl (sec_list sec lA' lN' lR')) = l' /\ other_sections_kept sec lA lN lR lA' lN' lR' /\
+        Forall2 (yielded sec) cs' ys'
+    end.
+Proof. exact walk_refines_skip. Qed.
+Print Assumptions C11_walk_with_next_refines_machine.
+
+Theorem C11_walk_with_next_exact : forall sec, sec = SAnswer \/ sec = SNameServers \/ sec = SAdditional ->
+  forall (D : rec_view * rd_view -> bool) (dec : ppacket -> rrit -> bool),
+  (forall v qls qt lA lN lR rxp n, reading (pp_packet v) qls qt lA lN lR -> In rxp (sec_list sec lA lN lR) ->
+     dec v (cur_on sec (fst rxp) n) = D (unpl rxp)) ->
+  forall v it qls qt lA lN lR,
+    objst v -> reading (pp_packet v) qls qt lA lN lR -> it_offset it = None -> it_section it = sec ->
+    let l := filter nonoptp (map unpl (sec_list sec lA lN lR)) in
+    exists v' cs lA' lN' lR' ys,
+      cwalk_s dec ((ndel D l + 1) * (length l + 1)) v it [] = Some (v', cs) /\ objst v' /\ reading (pp_packet v') qls qt lA' lN' lR' /\
+      filter nonoptp (map unpl (sec_list sec lA' lN' lR')) = filter (keep D) l /\ other_sections_kept sec lA lN lR lA' lN' lR' /\
+      Forall2 (yielded sec) cs ys /\ (forall y, In y (filter (keep D) l) -> In y ys) /\ (forall y, In y ys -> In y l).
+Proof. exact walk_skip_deletes_exactly. Qed.
+Print Assumptions C11_walk_with_next_exact.
+
+Example C11_next_vocabulary :
+  (forall rx, nonoptp rx = negb (is_opt (fst rx))) /\
+  (forall l, skip_first l = match l with
+                            | [] => None
+                            | rx :: l' => if is_opt (fst rx) then match l' with [] => None | rx2 :: l3 => Some (rx2, l3) end else Some (rx, l')
+                            end) /\
+  (forall dec f v it cs, cwalk_s dec (S f) v it cs =
+     match r_next v it with
+     | Ok None => Some (v, cs)
+     | Ok (Some cur) => if dec v cur
+                        then match m_delete (v, cur) with ((v', cur'), Ok _) => cwalk_s dec f v' cur' (cs ++ [cur]) | _ => None end
+                        else cwalk_s dec f v cur (cs ++ [cur])
+     | _ => None
+     end) /\
+  (forall sec it lc i, Cur_s sec it lc i <->
+     exists l1 l, lc = l1 ++ l /\ i = length (filter nonoptp l1) /\
+       ((l1 = [] /\ it_offset it = None /\ it_section it = sec) \/ (exists l0 rxp, l1 = l0 ++ [rxp] /\ it = cur_on sec (fst rxp) (length l)))).
+Proof. split; [reflexivity|]. split; [reflexivity|]. split; [reflexivity|]. intros; unfold Cur_s; tauto. Qed.
